@@ -69,10 +69,24 @@ class Codec:
             EncodingError: when failed MsgSeqNum conditions for some types of messages
         """
         # Create body
-        body = []
-
         msg_type = msg.msg_type
 
+        # Message fields first: everything that may fail is done before MsgSeqNum
+        #   is allocated, a message which can't be encoded must not consume it
+        fields = []
+        for t in msg.tags:
+            if t in {
+                FTag.MsgSeqNum,
+                FTag.SendingTime,
+                FTag.SenderCompID,
+                FTag.TargetCompID,
+            }:
+                continue
+            self._addTag(fields, t, msg)
+        # text that can't be sent (e.g. lone surrogates) raises here
+        self.SOH.join(fields).encode("utf-8")
+
+        body = []
         body.append("%s=%s" % (FTag.SenderCompID, session.sender_comp_id))
         body.append("%s=%s" % (FTag.TargetCompID, session.target_comp_id))
 
@@ -101,16 +115,7 @@ class Codec:
 
         body.append("%s=%s" % (FTag.MsgSeqNum, seq_no))
         body.append("%s=%s" % (FTag.SendingTime, self.current_datetime()))
-
-        for t in msg.tags:
-            if t in {
-                FTag.MsgSeqNum,
-                FTag.SendingTime,
-                FTag.SenderCompID,
-                FTag.TargetCompID,
-            }:
-                continue
-            self._addTag(body, t, msg)
+        body.extend(fields)
 
         # Enable easy change when debugging
         SEP = self.SOH
